@@ -62,6 +62,11 @@ for _pat in ("1e-3 1e-3", "1e-3 0 1e-3", "1e-3 1e-3 0 1e-3 1e-3", "1e-3 1e-3 1e-
         # ... at the base padding 2, without rounding, without padding, at the program's default padding 8 and at a long non-rounded padding
         for _rp in ("", "|RoundPadding=false", "|RoundPadding=false|padding=1", "|padding=8", "|RoundPadding=false|padding=5.3"):
             AXES["BunchCurrent"].append("%s|SynchrotronFrequency=%d%s" % (_pat, _fs, _rp))
+# trains of which a single bucket is filled (first, last, in the middle): one bunch, but the fields are as long as the train
+for _pat in ("1e-3 0", "0 1e-3", "0 1e-3 0", "1e-3 0 0 0"):
+    for _fs in (900000, 1250000):
+        for _rp in ("", "|RoundPadding=false", "|padding=8"):
+            AXES["BunchCurrent"].append("%s|SynchrotronFrequency=%d%s" % (_pat, _fs, _rp))
 
 
 def mkfiles(wd, exe_plain):
